@@ -454,7 +454,7 @@ pub fn run_c10(ctx: &Ctx) -> ! {
     let mut rep = Report::new(
         ctx,
         "model_checking",
-        "for each of the 10 operations: EVERY sequence of <= 4 (5) builder calls over its setter alphabet (single-valued setters repeated, attribute/attributes interleaved) with arguments from strings {\"\", a, ü€𝄞, 255 x, 128 ü (256 octets), 1023 x}, job-id {MIN,-1,0,1,255,65536,MAX}, last {unset,true,false}, requested-attribute lists of length 0..3 (with duplicate, exactly one), job attributes incl. a nested collection and duplicates; plus a target-URI sweep (8 forms), a payload sweep (none / 5 B / 70 000 B; blocking and async source), the direct constructors, and the raw request/response constructors with every version constant. Oracle R4 (written from the property statement and RFC 8011 4.2-4.3): exact operation code, version 1.1, request-id >= 1, exact groups/attributes/syntaxes/order of requested-attributes, last-wins job attributes, nothing else, payload octets identical; and the same again after to_bytes() -> R1.decode. states = distinct encoded requests; transitions = builder calls; non-trivial = at least one builder call or non-default argument",
+        "for each of the 10 operations: EVERY sequence of <= 4 (5) builder calls over its setter alphabet (single-valued setters repeated, attribute/attributes interleaved) with arguments from strings {\"\", a, ü€𝄞, 255 x, 128 ü (256 octets), 1023 x}, job-id {MIN,-1,0,1,255,65536,MAX}, last {unset,true,false}, requested-attribute lists of length 0..3 (with duplicate, exactly one), job attributes incl. a nested collection and duplicates; plus a target-URI sweep (8 forms), a payload sweep (none / 5 B / 70 000 B; blocking and async source), the direct constructors, and the raw request/response constructors with every version constant; plus long argument lists: 5 .. 300 job attributes over 3 / 7 / n/2+1 / n distinct names (value = position) through attributes(list), attribute() x n and add_attribute() x n for Print-Job and Create-Job, and 5 .. 300 requested attribute names with repeats for Get-Printer-Attributes. Oracle R4 (written from the property statement and RFC 8011 4.2-4.3): exact operation code, version 1.1, request-id >= 1, exact groups/attributes/syntaxes/order of requested-attributes, last-wins job attributes, nothing else, payload octets identical; and the same again after to_bytes() -> R1.decode. states = distinct encoded requests; transitions = builder calls; non-trivial = at least one builder call or non-default argument",
     );
     let max_calls = ctx.tier.pick(4u32, 5u32);
     let seed = ctx.seed;
@@ -499,7 +499,10 @@ pub fn run_c10(ctx: &Ctx) -> ! {
     if let Some(p) = &ctx.replay {
         let (_, j) = vmc::report::load_replay(p);
         let mut st = Stats::new();
-        if let Some(op) = j["op"].as_u64() {
+        if j["long_list"].as_bool() == Some(true) {
+            let g = |k: &str| j[k].as_u64().unwrap_or(0) as usize;
+            long_list_case(g("op_index"), g("n"), g("k").max(1), g("stride").max(1), g("how") as u32, &mut st);
+        } else if let Some(op) = j["op"].as_u64() {
             let choices: Vec<u32> = j["choices"].as_array().map(|a| a.iter().map(|v| v.as_u64().unwrap_or(0) as u32).collect()).unwrap_or_default();
             run_choices(&choices, op as usize, &mut st);
         } else {
@@ -545,11 +548,105 @@ pub fn run_c10(ctx: &Ctx) -> ! {
     }
     rep.section("builder-call-sequences", s);
     let mut s = Stats::new();
+    long_lists(&mut s);
+    rep.section("long-argument-lists", s);
+    let mut s = Stats::new();
     raw_constructors(&mut s);
     rep.section("raw-constructors", s);
     rep.set("max_calls", json!(max_calls));
 
     rep.finish()
+}
+
+/// long argument lists: n job attributes over k distinct names (value = position, so "the last one given wins" is
+/// decidable per name), handed over in one attributes() call / one attribute() call each / add_attribute on the
+/// direct constructor; and n requested attribute names with repeats, whose order must be kept
+fn long_list_case(op: usize, n: usize, k: usize, stride: usize, how: u32, st: &mut Stats) {
+    st.evaluations += 1;
+    st.traces += 1;
+    st.transitions += n as u64;
+    let case = json!({"long_list": true, "op_index": op, "n": n, "k": k, "stride": stride, "how": how});
+    let r = std::panic::catch_unwind(|| {
+        let uri: Uri = uris()[0].0.parse().expect("uri");
+        let mut sp = Spec { op, last: true, job_id: 1, ..Default::default() };
+        sp.trace.push(format!("{} x {} names (stride {}) via {}", n, k, stride, ["attributes(list)", "attribute() x n", "add_attribute x n"][how as usize]));
+        let names: Vec<String> = (0..n).map(|i| format!("attr-{:03}", (i * stride) % k)).collect();
+        let req = match op {
+            1 => {
+                sp.requested = names.clone();
+                let mut b = IppOperationBuilder::get_printer_attributes(uri);
+                if how == 0 {
+                    b = b.attributes(names.iter().map(|x| x.as_str()).collect::<Vec<_>>());
+                } else {
+                    for x in &names {
+                        b = b.attribute(x);
+                    }
+                }
+                b.build().into_ipp_request()
+            }
+            _ => {
+                let list: Vec<(String, Vec<Val>)> = names.iter().enumerate().map(|(i, x)| (x.clone(), vec![Val::Int(i as i32)])).collect();
+                sp.job_attrs = list.clone();
+                match (op, how) {
+                    (0, 2) => {
+                        let mut o = PrintJob::new(uri, IppPayload::empty(), None::<&String>, None::<&String>);
+                        for a in &list {
+                            o.add_attribute(to_attr(a));
+                        }
+                        o.into_ipp_request()
+                    }
+                    (_, 2) => {
+                        let mut o = CreateJob::new(uri, None::<&String>);
+                        for a in &list {
+                            o.add_attribute(to_attr(a));
+                        }
+                        o.into_ipp_request()
+                    }
+                    (0, 0) => IppOperationBuilder::print_job(uri, IppPayload::empty()).attributes(list.iter().map(to_attr).collect::<Vec<_>>()).build().into_ipp_request(),
+                    (0, _) => {
+                        let mut b = IppOperationBuilder::print_job(uri, IppPayload::empty());
+                        for a in &list {
+                            b = b.attribute(to_attr(a));
+                        }
+                        b.build().into_ipp_request()
+                    }
+                    (_, 0) => IppOperationBuilder::create_job(uri).attributes(list.iter().map(to_attr).collect::<Vec<_>>()).build().into_ipp_request(),
+                    _ => {
+                        let mut b = IppOperationBuilder::create_job(uri);
+                        for a in &list {
+                            b = b.attribute(to_attr(a));
+                        }
+                        b.build().into_ipp_request()
+                    }
+                }
+            }
+        };
+        c10_judge(&sp, req, &[])
+    });
+    match r {
+        Ok(Ok(h)) => {
+            st.states.insert(h);
+            st.nontrivial.insert(h);
+            st.outcome(OPS[op]);
+        }
+        Ok(Err((c, d))) => st.violate(c, d, case),
+        Err(p) => st.violate(format!("{}:panic", OPS[op]), panic_text(p), case),
+    }
+}
+
+fn long_lists(st: &mut Stats) {
+    for op in [0usize, 2, 1] {
+        for n in [5usize, 20, 21, 22, 33, 64, 65, 129, 300] {
+            for (k, stride) in [(3usize, 1usize), (7, 3), (7, 5), (n, 1), (n / 2 + 1, 1)] {
+                for how in 0..3u32 {
+                    if op == 1 && how == 2 {
+                        continue;
+                    }
+                    long_list_case(op, n, k, stride, how, st);
+                }
+            }
+        }
+    }
 }
 
 fn raw_constructors(st: &mut Stats) {
@@ -648,10 +745,62 @@ fn addition(i: u32) -> (DelimiterTag, IppAttribute, &'static str) {
         4 => (DelimiterTag::OperationAttributes, IppAttribute::new("zzz", IppValue::Integer(1)), "op:zzz"),
         5 => (DelimiterTag::OperationAttributes, IppAttribute::new("attributes-charset", IppValue::Charset("utf-8".into())), "op:attributes-charset(again)"),
         6 => (DelimiterTag::JobAttributes, IppAttribute::new("copies", IppValue::Integer(2)), "job:copies"),
-        _ => (DelimiterTag::PrinterAttributes, IppAttribute::new("x", IppValue::NoValue), "printer:x"),
+        7 => (DelimiterTag::PrinterAttributes, IppAttribute::new("x", IppValue::NoValue), "printer:x"),
+        n => {
+            let (name, value) = &EXTRA_OP_ATTRS[(n - 8) as usize % EXTRA_OP_ATTRS.len()];
+            let v = match *value {
+                0 => IppValue::Keyword("k".into()),
+                1 => IppValue::Integer(3),
+                2 => IppValue::Boolean(true),
+                3 => IppValue::Uri("ipp://h/x".into()),
+                4 => IppValue::NameWithoutLanguage("n".into()),
+                5 => IppValue::TextWithoutLanguage("t".into()),
+                _ => IppValue::MimeMediaType("application/pdf".into()),
+            };
+            (DelimiterTag::OperationAttributes, IppAttribute::new(*name, v), name)
+        }
     }
 }
 const N_ADD: u32 = 8;
+
+/// every operation attribute RFC 8011 4.2-4.4 (and the CUPS operations) define besides the five that have a fixed
+/// position, plus look-alikes of those five: none of them may come between or before the mandatory / target ones
+const EXTRA_OP_ATTRS: [(&str, u8); 34] = [
+    ("job-name", 4),
+    ("ipp-attribute-fidelity", 2),
+    ("document-name", 4),
+    ("compression", 0),
+    ("document-format", 6),
+    ("document-natural-language", 0),
+    ("job-k-octets", 1),
+    ("job-impressions", 1),
+    ("job-media-sheets", 1),
+    ("last-document", 2),
+    ("document-uri", 3),
+    ("requested-attributes", 0),
+    ("which-jobs", 0),
+    ("my-jobs", 2),
+    ("limit", 1),
+    ("message", 5),
+    ("status-message", 5),
+    ("detailed-status-message", 5),
+    ("document-access-error", 5),
+    ("job-printer-uri", 3),
+    ("printer-name", 4),
+    ("device-uri", 3),
+    ("ppd-name", 4),
+    ("printer-type", 1),
+    ("first-printer-name", 4),
+    ("job-uris", 3),
+    ("job-ids", 1),
+    ("printer-uri-supported", 3),
+    ("Printer-Uri", 3),
+    ("JOB-ID", 1),
+    ("attributes", 0),
+    ("a", 0),
+    ("job-id-x", 1),
+    ("printer-ur", 3),
+];
 
 /// base programs: (name, number of optional-setter subsets)
 const BASES: [(&str, u32); 14] = [
@@ -931,6 +1080,17 @@ pub fn run_c09(ctx: &Ctx) -> ! {
         for s in 0..*subsets {
             for q in &seqs {
                 programs.push((b, s, q.clone()));
+            }
+        }
+    }
+    // every further operation attribute name, alone, after a job-id and before one (so that target attributes and the
+    // extra one coincide in the group)
+    for (b, (_, subsets)) in BASES.iter().enumerate() {
+        for s in 0..*subsets {
+            for x in 0..EXTRA_OP_ATTRS.len() as u32 {
+                for q in [vec![8 + x], vec![0, 8 + x], vec![8 + x, 0], vec![1, 8 + x]] {
+                    programs.push((b, s, q));
+                }
             }
         }
     }
